@@ -113,6 +113,8 @@ class SymSeq:
         return self.n
 
     def at(self, i):
+        if not isinstance(i, (int, SNum)):
+            raise Unsupported(f"symbolic sequence indexed with {type(i).__name__}")
         key = i.z.get_id() if isinstance(i, Sym) else i
         if key not in self.cache:
             self.cache[key] = self.elem_fn(i)
